@@ -52,7 +52,7 @@ impl Campaign for C06c {
         "C06"
     }
     fn rule(&self) -> &'static str {
-        "seeded scenarios: 1-2 connections with 1..5 pipelined requests (no body / buffered / streamed Content-Length bodies read none, partly or fully), each finished by respond / raw writer / upgrade (last only) / drop / handler panic, on handler threads or on the receiving thread, any order; non-trivial = at least one request was dropped or its handler panicked while another request of the same connection was outstanding; distinct = interleaving fingerprint"
+        "seeded scenarios: 1-2 connections with 1..5 pipelined requests (no body / buffered / streamed Content-Length bodies read none, partly or fully), each finished by respond / raw writer / upgrade (last only) / drop / handler panic, on handler threads or on the receiving thread, any order; one run in eight ends with a streamed body the client holds back until answered, one in eight with a streamed body cut short by the client closing its sending side; one in five is a mixed-feature conversation; non-trivial = at least one request was dropped or its handler panicked while another request of the same connection was outstanding; distinct = interleaving fingerprint"
     }
     fn runs(&self, tier: Tier) -> u64 {
         match tier {
@@ -147,6 +147,30 @@ impl Campaign for C06c {
                 c.steps.push(ClientStep::Send(B(all[cut..].to_vec())));
                 let finish = if g.chance(1, 2) { Finish::Drop } else { Finish::Respond(RespSpec::simple(200, token_body(&id, 10))) };
                 sc.programs.insert(id, Program { delay: 0, after: vec![], body: BodyPlan::None, delay2: 0, finish });
+            }
+            if index % 8 == 7 && ci == 0 {
+                // the last request announces a streamed body of which the client sends only a part
+                // before it closes its sending side (it keeps reading): the handler, whatever it does
+                // with the truncated body, still owes exactly one response
+                let id = format!("c{}r{}", ci, n);
+                let total = *g.pick(&[1025usize, 3000, 20000]);
+                let rq = Req::get(&id).with_body(token_body(&format!("q{}", id), total));
+                let all = rq.bytes();
+                let keep = all.len() - total + g.usize(0, total - 1);
+                c.steps.push(ClientStep::Send(B(all[..keep].to_vec())));
+                c.steps.push(ClientStep::HalfClose);
+                let body = match g.below(4) {
+                    0 => BodyPlan::None,
+                    1 => BodyPlan::Sizes(vec![g.usize(1, total)]),
+                    2 => BodyPlan::ToEof { buf: *g.pick(&[1usize, 100, 4096]) },
+                    _ => BodyPlan::Touch(1),
+                };
+                let finish = match g.below(3) {
+                    0 => Finish::Drop,
+                    1 => Finish::Writer { parts: vec![B(literal_response(200, &token_body(&id, 10)))], flush: true },
+                    _ => Finish::Respond(RespSpec::simple(200, token_body(&id, 10))),
+                };
+                sc.programs.insert(id, Program { delay: 0, after: vec![], body, delay2: 0, finish });
             }
             c.coalesce = g.chance(1, 2);
             if g.chance(1, 4) {
